@@ -149,11 +149,11 @@ def run_job(job, scratch):
         lines = f.readlines()
     cur = None
     for ln in lines:
-        if ln.startswith('{"ev":"reset"'):
+        if ln.startswith('{"ev":"reset"') or (len(ln) < 400 and '"ev":"reset"' in ln):
             cur = json.loads(ln)
             segs[cur["seg"]] = cur
             nseg += 1
-        elif ln.startswith('{"ev":"call"'):
+        elif ln.startswith('{"ev":"call"') or ln.startswith('{"ev":"kv"'):
             ncalls += 1
     for v in viols:
         v["job"] = job["name"]
@@ -179,6 +179,8 @@ def run_job(job, scratch):
         if ln.startswith('{"ev":"call"') and len(sample) < 6:
             e = json.loads(ln)
             sample.append({k: e[k] for k in ("proc", "fh", "name", "off", "cnt", "st", "code") if k in e})
+        elif ln.startswith('{"ev":"kv"') and len(sample) < 6:
+            sample.append(json.loads(ln))
     os.remove(trace)
     return {"name": job["name"], "viols": viols, "events": consumed[1], "segments": nseg, "calls": ncalls,
             "states": st["distinct"], "transitions": st["generated"], "tdrv": tdrv, "ttlc": st["wall"], "sample": sample}
@@ -310,6 +312,15 @@ def plan(prop, tier, seed, known):
                                   extra=["-loss", "2" if q else "5", "-cont", "3", "-nested", "1"]))
         jobs.append(seq_job("unstseq", seed, "data,mix", 4 if q else 16, 250, av))
         jobs.append(probe_job(prop, av))
+    elif prop in ("C17", "C18"):
+        cmd, mod = ("simple", "SimpleTrace") if prop == "C17" else ("kvs", "KvsTrace")
+        for i in range(4 if q else 24):
+            jobs.append({"name": "%sseq%d" % (cmd, i), "module": mod + ".tla", "cfg": mod + ".cfg",
+                         "driver": [cmd, "-seed", str(seed * 100 + i), "-segs", "4" if q else "10", "-steps", "400", "-disk", "2000", "-avoid", av]})
+        for i in range(4 if q else 40):
+            jobs.append({"name": "%scrash%d" % (cmd, i), "module": mod + ".tla", "cfg": mod + ".cfg",
+                         "driver": [cmd, "-seed", str(seed * 100 + 50 + i), "-segs", "2" if q else "4", "-steps", "60", "-disk", "2000",
+                                    "-crashpoints", "-loss", "2" if q else "6", "-avoid", av]})
     else:
         raise Infra("no plan for " + prop)
     return jobs
